@@ -1,82 +1,185 @@
 """Configuration of ./check for C01 (see tools/props.py)."""
 ENTRY = {'coq_dir': 'C01',
  'harness': 'c01',
- 'coq_deps': ['C18'],
- 'cases': {'quick': 1500, 'thorough': 40000},
+ 'coq_deps': ['C18', 'C02'],
+ 'cases': {'quick': 1500, 'thorough': 30000},
  'harness_timeout': 2400,
- 'consts': ['C01_STATIC_KEY_DOMAIN_BE', 'C01_STATIC_KEY_DOMAIN_LEN', 'MAX_INLINE_KEY_LENGTH', 'MULTIHASH_IDENTITY_CODE',
+ 'quick_streams': [('extra', '{V}/tools/c01_extra_streams.sh {seed} 200')],
+ 'thorough_streams': [('extra', '{V}/tools/c01_extra_streams.sh {seed} 6000')],
+ 'stream_timeout': 2400,
+ 'consts': ['C01_STATIC_KEY_DOMAIN_BE',
+            'C01_STATIC_KEY_DOMAIN_LEN',
+            'C01_TLS_SIGNING_PREFIX_BE',
+            'C01_TLS_SIGNING_PREFIX_LEN',
+            'C01_WEBRTC_PROLOGUE_PREFIX_BE',
+            'C01_WEBRTC_PROLOGUE_PREFIX_LEN',
+            'MAX_INLINE_KEY_LENGTH',
+            'MULTIHASH_IDENTITY_CODE',
             'PEER_ID_MULTIHASH_SIZE'],
  'nontrivial_min_trace': 40,
  'rule': 'every case runs the REAL crypto::noise::handshake() or TcpConnection::negotiate_connection(). Streams: (1) honest sessions '
          'between two real handshake() futures over in-memory pipes with seeded identity keys and random fragmentation (1-byte to '
-         '1000-byte chunks, spurious Pending); the real payload and static key of each honest session are read back through accessors '
-         'and fed to the decision model with an independently computed ed25519 verdict; (2) a scripted man in the middle between the '
-         'two futures, EXHAUSTIVE in both tiers: every byte position of each of the three framed handshake messages (34, 202, 170 bytes) '
-         'xor 0x01, 0x80, 0xff; the stream cut after every byte; every body truncated to every shorter length with the length prefix '
-         'adjusted; plus each message dropped, duplicated, replaced by random bytes, replaced by the corresponding message of another '
-         "honest session, and component splices (dialer's ephemeral key reflected, message 2's ciphertexts replayed as message 3, "
-         'ciphertexts swapped, components of a foreign session); random: other masks, bytes appended inside/after a frame, a byte '
-         'inserted, arbitrary length prefixes, all under fragmentation; when nothing moves both directions are closed; (3) a rogue peer '
-         'built directly on the snow crate (same parameters and resolver as litep2p) that completes a valid Noise XX session in either '
-         'role and presents a forged identity payload: 22 forgery classes x 16 variants x 2 roles always, then random: valid (control), '
-         'missing/empty key, missing/empty signature, empty payload, signature by another identity, signature over another static key '
-         "(random, one bit off, the victim's identity key), over the bare static key, over 6 other domain strings, 16 key-type values "
-         '(incl. 2^32+1 and 2^63+1 which prost truncates to Ed25519), key lengths 0/1/16/31/33/64, unknown fields of every wire type and '
-         'nested groups, reordered and repeated fields (last wins), non-minimal varints up to 10 bytes, NoiseExtensions valid / invalid '
-         'UTF-8 (6 kinds) / over-running / wrong wire type, truncation, bit flips, random bytes, small-order keys with the universal '
-         'signature, keys off the curve, signatures of 63/65 bytes / zero / S+L / bit flip, group nesting 96-103 deep in payload, '
-         "extensions and key blob, the victim's own key reflected, an honest payload of another session replayed, structure-aware "
-         "mixtures (4% of them 2-40 kB large or with thousands of unknown fields). The payload bytes, the rogue's static key and real ed25519 / curve verdicts for every candidate key and signature "
-         '(oracle tables) go into the case; the trace logs what prost makes of the payload (NoiseHandshakePayload::decode), of the key '
-         'blob (keys_proto::PublicKey::decode), RemotePublicKey::from_protobuf_encoding, parse_and_verify_peer_id and the '
-         "victim's handshake() verdict; each is compared with the extracted Coq model; (4) dialed-peer expectations through "
-         'negotiate_connection over loopback TCP in BOTH tiers: honest pairs with {none, right, wrong} on both roles, and the rogue peer '
-         '(speaking multistream-select, Noise and, in transport mode, the yamux negotiation) against a victim dialing {none, the '
-         "rogue's identity, another identity, the key in the payload}. prop_ok is judged on the implementation's trace without the "
-         "model's decoders: a side reports peer P only if the ed25519 table has a `true` verdict for a key with id P over DOMAIN ++ "
-         'this session\'s remote static key with both key and signature occurring in the payload, and P equals the dialed peer if '
-         'one was given; both ends connect only if the bytes consumed by the handshakes are the bytes sent; any connected end names the '
-         "other end's identity key. A case is non-trivial when its trace has >= 40 numbers",
+         '1000-byte chunks, spurious Pending); the real payload and static key of each honest session are read back through accessors and '
+         'fed to the decision model with an independently computed ed25519 verdict; (2) a scripted man in the middle between the two '
+         'futures, EXHAUSTIVE in both tiers: every byte position of each of the three framed handshake messages (34, 202, 170 bytes) xor '
+         '0x01, 0x80, 0xff; the stream cut after every byte; every body truncated to every shorter length with the length prefix adjusted; '
+         'plus each message dropped, duplicated, replaced by random bytes, replaced by the corresponding message of another honest '
+         "session, and component splices (dialer's ephemeral key reflected, message 2's ciphertexts replayed as message 3, ciphertexts "
+         'swapped, components of a foreign session); random: other masks, bytes appended inside/after a frame, a byte inserted, arbitrary '
+         'length prefixes, all under fragmentation; when nothing moves both directions are closed; (3) a rogue peer built directly on the '
+         'snow crate (same parameters and resolver as litep2p) that completes a valid Noise XX session in either role and presents a '
+         'forged identity payload: 22 forgery classes x 16 variants x 2 roles always, then random: valid (control), missing/empty key, '
+         'missing/empty signature, empty payload, signature by another identity, signature over another static key (random, one bit off, '
+         "the victim's identity key), over the bare static key, over 6 other domain strings, 16 key-type values (incl. 2^32+1 and 2^63+1 "
+         'which prost truncates to Ed25519), key lengths 0/1/16/31/33/64, unknown fields of every wire type and nested groups, reordered '
+         'and repeated fields (last wins), non-minimal varints up to 10 bytes, NoiseExtensions valid / invalid UTF-8 (6 kinds) / '
+         'over-running / wrong wire type, truncation, bit flips, random bytes, small-order keys with the universal signature, keys off the '
+         'curve, signatures of 63/65 bytes / zero / S+L / bit flip, group nesting 96-103 deep in payload, extensions and key blob, the '
+         "victim's own key reflected, an honest payload of another session replayed, structure-aware mixtures (4% of them 2-40 kB large or "
+         "with thousands of unknown fields). The payload bytes, the rogue's static key and real ed25519 / curve verdicts for every "
+         'candidate key and signature (oracle tables) go into the case; the trace logs what prost makes of the payload '
+         '(NoiseHandshakePayload::decode), of the key blob (keys_proto::PublicKey::decode), RemotePublicKey::from_protobuf_encoding, '
+         "parse_and_verify_peer_id and the victim's handshake() verdict; each is compared with the extracted Coq model; (4) dialed-peer "
+         'expectations through negotiate_connection over loopback TCP in BOTH tiers: honest pairs with {none, right, wrong} on both roles, '
+         'and the rogue peer (speaking multistream-select, Noise and, in transport mode, the yamux negotiation) against a victim dialing '
+         "{none, the rogue's identity, another identity, the key in the payload}. (5) early data: in stream (1)/(2) sessions the dialer's "
+         'application writes 1 B - 100 kB through its NoiseSocket the moment handshake() returns, so that message 3 and the transport '
+         "frames reach the listener in one piece; the listener's application reads what its socket delivers: everything after an honest "
+         'handshake (no read-ahead in read_handshake_message), nothing when message 3 was damaged; (6) two complete Litep2p nodes through '
+         'the public API over TCP and over WebSocket, dialing the right or a wrong peer id (ConnectionEstablished / '
+         'DialFailure(PeerIdMismatch); the listener reports nothing on a mismatch); (7) three-way key admission: every identity_key blob '
+         'of stream (3) also goes through libp2p-identity 0.2.14 (PublicKey::try_decode_protobuf + to_peer_id): same verdict, same key, '
+         'same id required by the oracle; maximal handshake messages (65535 bytes) included. (8) kind 9, the REAL TransportManager over a '
+         'scripted transport installed as TCP / WebSocket (/ QUIC in the extra stream): dial_address(../p2p/<dialed>), then the transport '
+         "reports ConnectionEstablished under the dial's connection id for the dialed peer or for another one, or an inbound connection: "
+         'does next() hand out ConnectionEstablished (after transport.accept) or is the connection refused (transport.reject; a debug '
+         'build stops at debug_assert!(false) first: both count as refused). The ed25519 / curve oracle tables are computed by an '
+         "INDEPENDENT implementation (libp2p-identity 0.2.14 calling ed25519-dalek), not through litep2p's crypto::ed25519, so a change to "
+         'PublicKey::try_from_bytes / verify does not move the oracle with it. EXTRA STREAM, run by ./check in BOTH tiers (props keys '
+         "quick_streams / thorough_streams -> tools/c01_extra_streams.sh; crate harness_c01x built with litep2p's quic+webrtc features "
+         "into C19's harness/target-c19x/target; 380 fixed and 200 / 6000 random cases, a few seconds): kind 7 the TLS certificate checks "
+         'of the QUIC transport (verify_server_cert with none/right/wrong expected peer, verify_client_cert) on certificates generated by '
+         "litep2p's own rcgen path with a crafted LIST of extensions in a chosen order (libp2p extension valid / none / malformed DER / "
+         'signature by another identity / for another certificate key / without or with a wrong prefix, non-canonical key encodings, other '
+         'key types and lengths, small-order keys, bit flips, extra certificates in the chain; other OIDs, critical or not, before / after '
+         '/ around it; two libp2p extensions in every combination of good / refused key / malformed so that the first offending extension '
+         'decides; random lists); kind 8 the WebRTC Noise path on byte vectors (NoiseContext::with_prologue, first_message, '
+         "get_remote_peer_id; prologue from litep2p's noise_prologue) against a snow responder whose prologue is computed from the same or "
+         'from a differing fingerprint pair (bit flips, swapped, truncated) or who uses no prologue / only the prefix, with all '
+         'forged-payload classes of stream (3); the reply handed to get_remote_peer_id also with a length prefix that does not match '
+         '(smaller but enough for the payload, one byte too small for the payload, 65535, 0), with a byte appended behind the message, or '
+         "cut to a single byte; kind 6 over QUIC: two complete Litep2p nodes, right / wrong peer id dialed ('Wrong peer ID in p2p "
+         "extension' arrives as the reason of a TLS transport error); kind 9 with the scripted transport installed as QUIC. A stream trace "
+         'that fails prop_ok yields STREAM-VIOLATION with a replay file (replays/C01-x-<seed>-<n>.case; the harness_c01x binary takes '
+         "--replay), a disagreement yields a replay of the first differing case. prop_ok is judged on the implementation's trace without "
+         "the model's decoders: a side reports peer P only if the ed25519 table has a `true` verdict for a key with id P over DOMAIN ++ "
+         "this session's remote static key with both key and signature occurring in the payload, and P equals the dialed peer if one was "
+         'given; both ends connect only if the bytes consumed by the handshakes are the bytes sent; any connected end names the other '
+         "end's identity key; a TLS identity is accepted only from a certificate with exactly one libp2p extension and no other critical "
+         'extension; the manager hands out a dialed connection only for the peer it dialed. A case is non-trivial when its trace has >= 40 '
+         'numbers',
  'trusted_base': ['signatures: `verify` and `on_curve` are arbitrary functions in the theorems; in runs they are tables of real '
-                  'ed25519-dalek / curve25519 results computed by the harness through the public ed25519 API. C01_binding additionally '
-                  'ASSUMES the single-message hypothesis (verify pk m sg = verify pk m\' sg = true -> m = m\'): this is the '
-                  'unforgeability idealisation, not a fact about ed25519 — it is false for small-order keys under non-strict '
-                  'verification (C01_binding_needs_hypothesis; corpus w01, forgery 16)',
-                  'Noise XX / the snow crate (0.9.6), ChaChaPoly, SHA-256, X25519 are not modelled byte for byte: the transcript layer '
-                  'is symbolic (ciphertext = term tagged with key and handshake hash, decryption iff both agree, hash injective, '
-                  'no_forgery = AEAD idealisation for a session whose four DH secrets the attacker does not know); that snow behaves '
-                  'like this is tested by the exhaustive tamper sweep, not proved',
-                  'prost 0.13.5 is modelled from its source for the two schemas only (varint, key, skip_field with recursion limit '
-                  '100, optional/last-wins, nested NoiseExtensions with UTF-8 check); RECURSION_LIMIT = 100 is written into the model; '
-                  'the nested message is parsed on its delimited slice (argued equivalent in Model.v), decoder errors are one class; '
-                  'agreement with prost is differential (field-by-field on every rogue case)',
+                  'ed25519-dalek / curve25519 results computed by the harness with libp2p-identity 0.2.14 (ed25519-dalek called directly, '
+                  "not through litep2p's crypto::ed25519; same non-strict verification). C01_binding additionally ASSUMES the "
+                  "single-message hypothesis (verify pk m sg = verify pk m' sg = true -> m = m'): this is the unforgeability idealisation, "
+                  'not a fact about ed25519 — it is false for small-order keys under non-strict verification '
+                  '(C01_binding_needs_hypothesis; corpus w01, forgery 16)',
+                  'Noise XX / the snow crate (0.9.6), ChaChaPoly, SHA-256, X25519 are not modelled byte for byte: the transcript layer is '
+                  'symbolic (ciphertext = term tagged with key and handshake hash, decryption iff both agree, hash injective, no_forgery = '
+                  'AEAD idealisation for a session whose four DH secrets the attacker does not know); that snow behaves like this is '
+                  'tested by the exhaustive tamper sweep, not proved',
+                  'prost 0.13.5 is modelled from its source for the two schemas only (varint, key, skip_field with recursion limit 100, '
+                  'optional/last-wins, nested NoiseExtensions with UTF-8 check); RECURSION_LIMIT = 100 is written into the model; the '
+                  'nested message is parsed on its delimited slice (argued equivalent in Model.v), decoder errors are one class; agreement '
+                  'with prost is differential (field-by-field on every rogue case)',
                   'peer-id derivation is the C18 model (identity multihash of 08 01 12 20 || key); the cargo feature `rsa` is off',
-                  'the rogue peer, the man in the middle, the in-memory pipes and the loopback TCP set-up of the harness'],
- 'level_text': 'Proof (decision layer): for the executable model of what handshake() and negotiate_connection do with the decrypted '
-               'identity payload, the remote static key and the dialed peer — prost decoding of payload and key blob, Ed25519 '
-               'admission (type, 32 bytes, on curve), verification over STATIC_KEY_DOMAIN ++ static key (constant read from the '
-               'source), id derivation from the decoded key, dialed-peer comparison — acceptance is characterised exactly '
-               '(C01_accept_sound / C01_accept_complete), every reason to refuse yields its specific error and never acceptance '
-               '(10 theorems), a dialed expectation never rescues a refusal, the verdict depends on the decoded fields only, the '
-               'reported id determines the verified key, an honest payload is accepted, and under the single-message hypothesis a '
-               'payload accepted for one static key is refused for every other (C01_binding; the hypothesis is shown necessary). '
-               'Partial (transcript layer, theorems *_partial): in a symbolic model of the three XX messages with an injective '
-               'handshake hash and the AEAD idealisation, a side that accepts has read exactly what its peer sent and reaches exactly '
-               "the decision layer's verdict on the peer's genuine payload and static key; any replaced message means the reader of "
-               'message 2 (if 1 or 2 was replaced) and the reader of message 3 (always) refuse; the honest run succeeds; the hash '
-               'instance used in runs is injective. The model is tied to the Rust code by the differential run described under rule.',
+                  'the rogue peer, the man in the middle, the in-memory pipes and the loopback TCP set-up of the harness',
+                  'Dolev-Yao layer (coq/C01/Symbolic.v): idealisations I1-I5 listed at the head of the file — free term algebra (no '
+                  'collisions of hash / KDF / signatures / encryption; only DH commutativity), every group element is g^x and a DH output '
+                  'needs one of the two secrets, AEAD plaintext only with the key and ciphertext only from key+ad+plaintext, signatures '
+                  "only with the identity secret, honest sessions draw fresh secrets outside the attacker's set and never send a secret. "
+                  "They are the definitions of `term`, `knows` and `valid`, not axioms; the attacker's DH secrets `asec` and compromised "
+                  'identities `bad` are arbitrary Section variables',
+                  'TLS caller: the X.509 layer (x509-parser, yasna, certificate validity, self-signature with ring, rustls invoking the '
+                  "verifier, TLS 1.3 CertificateVerify) is trusted; the model starts at the certificate's list of extensions in order "
+                  '(each: libp2p OID with a SignedKey / libp2p OID not a SignedKey / another OID, critical or not) and the '
+                  'SubjectPublicKeyInfo bytes. WebRTC caller: DTLS and the fingerprints handed to noise_prologue are trusted; litep2p has '
+                  'no WebRTC dial path (it only accepts), so there is no dialed-peer comparison there',
+                  'early data: composition with C02 is at the level of the two models (listener_app_bytes); that handshake() performs no '
+                  'read-ahead and that a NoiseSocket exists only after acceptance is read from the code and tested by stream (5)',
+                  'the reference for key admission is libp2p-identity 0.2.14 as linked into the harness (prost 0.14.4 generated decoder): '
+                  'agreement is differential',
+                  'comparison sites: TCP negotiate_connection (optional expectation taken from the /p2p part of the dialed address: run, '
+                  'kinds 4-6), WebSocket negotiate_connection (dialer always Some: run end to end, kind 6), QUIC make_client_config(.., '
+                  'Some(peer)) -> verify_server_cert (run: kind 7 through the hook, kind 6 end to end over QUIC), '
+                  'TransportManager::on_connection_established (run: kind 9), listeners of all three and WebRTC: no expectation. READ, not '
+                  'run: that WebSocket / QUIC dial() and open() refuse an address without /p2p (AddressError::PeerIdMissing) and that TCP '
+                  'takes Option from TcpAddress::multiaddr_to_socket_address — dial_setup in the model; C01_every_dial_checked does not '
+                  "depend on it (the manager's comparison covers every case), and the manager itself only dials addresses carrying /p2p",
+                  'Dolev-Yao agreement theorems: the events NewD/NewL/Answered/AcceptD/AcceptL are bookkeeping of the model (what a '
+                  'session did), the prologue assignment `pro` is arbitrary; the listener reads message 3 only against the message 2 it '
+                  'wrote itself (v_L4 requires Answered), as handshake() does (one HandshakeState per call)'],
+ 'level_text': 'Proof (decision layer, all callers): for the executable model of what handshake()/negotiate_connection (TCP, WebSocket), '
+               'certificate::parse + Libp2pCertificateVerifier (QUIC) and get_remote_peer_id (WebRTC) do with the identity material — '
+               'prost decoding of payload and key blob, Ed25519 admission, signature over STATIC_KEY_DOMAIN ++ static key (Noise) or '
+               'P2P_SIGNING_PREFIX ++ SPKI (TLS), id derivation from the decoded key, comparison with the dialed peer — acceptance is '
+               "characterised exactly (C01_accept_sound/_complete, C01_tls_accept_sound/_complete: the TLS model walks the certificate's "
+               'extensions in order as parse_unverified does — exactly one libp2p extension among skipped ones; a critical unknown or a '
+               'second libp2p extension is never accepted), every reason to refuse yields its error (10 theorems), a key blob of another '
+               'type (RSA, Secp256k1, ECDSA, unknown) is never accepted on either path, binding to the session static key / certificate '
+               'key under the single-message hypothesis (shown necessary), decoder fuel adequacy, honest payload accepted. Every caller: '
+               'on EVERY transport a connection dialed through the manager is accepted only for the dialed peer and on authentic evidence '
+               '(C01_every_dial_checked: the transport compares, and where it does not — TCP with an address lacking /p2p — '
+               'TransportManager::on_connection_established does; C01_transport_and_manager_checks, C01_inbound_authentic). Framing: what '
+               'first_message / second_message write is read back exactly by read_handshake_message and nothing behind a frame is touched; '
+               "the listener's handshake consumes exactly its two frames (C01_handshake_framing, C01_honest_message_sizes). Proof "
+               '(Dolev-Yao layer, C01_dy_*): over ALL interleavings of any number of honest dialer/listener sessions, each with its own '
+               'prologue, with an active attacker owning any DH secrets and any identity keys: whoever completes believing in an '
+               'uncompromised P holds a session key bound to a static key that P signed in one of its honest sessions, the attacker never '
+               'knows that key nor any session or identity secret; AGREEMENT without any no-forgery hypothesis (derived from a '
+               'ciphertext-origin invariant): an accepting dialer received ephemeral and static key of ONE listener session of P, which '
+               "wrote message 2 in answer to this dialer's own ephemeral key under the SAME PROLOGUE (WebRTC fingerprints), the accepted "
+               'message 2 being that message component for component; an accepting listener talked to a dialer session of P that COMPLETED '
+               'accepting exactly this listener (agent and static key) with the very same session key and the same prologue; a dialer and '
+               "a listener session with the same key are each other's peers; secrets have unique owners; the honest run is a valid trace "
+               'whenever the two prologues agree. Partial (linear transcript layer, *_partial and the three theorems built on it: '
+               'C01_webrtc_prologue_binds, C01_xx_order, C01_early_data): one dialer and one listener session, injective handshake hash, '
+               'AEAD idealisation no_forgery: an accepting side read exactly what its peer sent, byte string for byte string, and reaches '
+               "the decision layer's verdict on the peer's genuine payload/static key; replaced message or differing prologue => refusal; "
+               "the dialer finishes first, the listener only after the dialer wrote message 3, message 2 is independent of the dialer's "
+               "identity, message 3 is written before the dialer's verdict; composed with C02: no early byte reaches the listener's "
+               'application unless its handshake accepted, and never anything of or after a non-authentic transport frame.',
  'level_note': 'Trusted: Coq kernel, ExtrOcamlBasic extraction, harness and hooks; ed25519, curve25519, snow, prost as stated in the '
                'trusted base. "Never yields a connection" means: never both ends, and never the end that reads a damaged message or '
-               'anything after it — with the XX pattern the dialer returns from handshake() after WRITING message 3, so a damaged '
-               'message 3 leaves the dialer with Ok(genuine listener id) and the listener with an error (the connection then dies in '
-               'the yamux negotiation; seen in kind-4 runs as class 11). Bytes that follow the last handshake frame of a direction '
-               'are not part of the handshake (they are the first transport frame; C02). Observation, not counted as a violation: '
-               'litep2p (like rust-libp2p) uses non-strict ed25519 verification, so the small-order keys 0100..00 / ecff..7f / 0000..00 '
-               'authenticate with the fixed signature 0100..00||00..00 in every session without any secret; the resulting peer id is '
-               'the hash of that weak key, which no honest node owns. Not modelled: the WebRTC caller (get_remote_peer_id, same '
-               'parse_and_verify_peer_id), RSA keys, timeouts (the Timeout arm of handshake()), the WebSocket twin of the dialed-peer '
-               'comparison (identical three lines, read but not run).',
+               'anything after it — with the XX pattern the dialer returns from handshake() after WRITING message 3, so a damaged message '
+               '3 leaves the dialer with Ok(genuine listener id) and the listener with an error (the connection then dies in the yamux '
+               'negotiation; seen in kind-4 runs as class 11). Bytes that follow the last handshake frame of a direction are not part of '
+               'the handshake (they are the first transport frame; C02). Observation, not counted as a violation: litep2p (like '
+               'rust-libp2p) uses non-strict ed25519 verification, so the small-order keys 0100..00 / ecff..7f / 0000..00 authenticate '
+               'with the fixed signature 0100..00||00..00 in every session without any secret; the resulting peer id is the hash of that '
+               'weak key, which no honest node owns. Not modelled: RSA keys (cargo feature off), timeouts (the Timeout arm of '
+               'handshake()), the X.509 / TLS 1.3 / DTLS layers, the byte-level split of a Noise message into its components (done in Glue '
+               'by fixed offsets, tested). Observation (harmless): the WebRTC caller get_remote_peer_id does not check its two-byte length '
+               'prefix against the reply — the prefix only sizes the output buffer and all bytes behind it go to snow; a wrong prefix that '
+               'still leaves room for the payload is accepted, anything appended breaks the last AEAD tag (run8 in Glue.v, tested by kind '
+               "8). In a debug build the manager's comparison stops at debug_assert!(false) before it rejects: kind 9 counts the panic as "
+               'a refusal (a release build calls transport.reject). WHAT IS MISSING FROM THE *_partial THEOREMS: (a) they speak about the '
+               'linear script (one session pair) at the level of byte strings; the Dolev-Yao theorems close the multi-session / '
+               'interleaving gap for authentication, key secrecy, session matching and now also for agreement on the transcript and on the '
+               'prologue (C01_dy_dialer_agreement, C01_dy_listener_agreement), at the level of terms; (b) no_forgery is a hypothesis on '
+               'the run there (a delivered ciphertext bound to a handshake hash its reader will use was produced by the peer), whereas in '
+               "the Dolev-Yao layer the attacker's inability is derived from the closure rules; (c) in both layers the hash is "
+               'collision-free and terms stand for bytes: that snow/ChaChaPoly/SHA-256/X25519 realise the symbolic operations is tested, '
+               'not proved; C01_transcript_hash_instance (formerly _partial) is a complete theorem: it shows the injectivity hypothesis '
+               'satisfiable. Further observations: (i) the dialer writes message 3 — its own identity, readable by the holder of the '
+               "static key it was given — before checking the listener's signature (C01_xx_order (iv)): a rogue listener learns the "
+               "dialer's identity even though it is then rejected; (ii) TCP takes the expectation from the /p2p part of the dialed address "
+               '(Option): an address without it would skip the comparison; the manager only dials addresses carrying /p2p (dial_address '
+               'refuses others; stored addresses: C10).',
  'assumptions': ['the single-message hypothesis on `verify` for C01_binding (unforgeability idealisation)',
-                 'injective handshake hash and no_forgery (AEAD idealisation, attacker without the four DH secrets) for the *_partial theorems',
+                 'injective handshake hash and no_forgery (AEAD idealisation, attacker without the four DH secrets) for the *_partial '
+                 'theorems',
                  'bytes are below 256',
-                 'cargo feature `rsa` off (RSA keys are UnknownKeyType)']}
+                 'cargo feature `rsa` off (RSA keys are UnknownKeyType)',
+                 'Dolev-Yao idealisations I1-I5 (Symbolic.v) for the C01_dy_* theorems',
+                 'X.509/TLS 1.3/DTLS layers trusted for the QUIC and WebRTC callers']}
